@@ -241,13 +241,13 @@ def coverage_counts(out):
 
 
 # ------------------------------------------------------------------ traces of the real solver
-def record(fams, seed, tier, count, outdir, name="t", start=0, stride=1, env=None):
+def record(fams, seed, tier, count, outdir, name="t", start=0, stride=1, env=None, limit=None):
     build_harness()
     trace = os.path.join(outdir, name + ".ndjson")
     scn = os.path.join(outdir, name + ".scn.ndjson")
     sh([PVH, "trace", "--fams", ",".join(fams), "--seed", str(seed), "--tier", tier,
         "--count", str(count), "--start", str(start), "--stride", str(stride),
-        "--out", trace, "--scn", scn], timeout=9000, env=env)
+        "--out", trace, "--scn", scn] + (["--limit", str(limit)] if limit else []), timeout=9000, env=env)
     return trace, scn
 
 
@@ -611,7 +611,10 @@ def planted_part(res, fam, count, seed, tier, adopt=None, min_events=None):
     """Models beyond the enumeration oracle (hundreds of variables): the scenario carries planted
     solutions, spec/Witness.tla verifies them under Constraints!Holds (an invalid one rejects the
     trace) and decides the recorded answers and every learned nogood against them."""
-    return tv_part(res, [fam], count, seed, tier, fam, adopt=adopt, spec="Witness", min_events=min_events)
+    # (the wall-clock watchdog is generous here: searches over dozens to hundreds of variables take
+    #  seconds in a debug build, more when the machine is loaded)
+    rec = lambda d: record([fam], seed, tier, count, d, limit=120)
+    return tv_part(res, [], 0, seed, tier, fam, adopt=adopt, spec="Witness", min_events=min_events, recorder=rec)
 
 
 def check_C01(res, tier, seed):
@@ -692,10 +695,10 @@ def check_C02(res, tier, seed):
     planted_part(res, "planted_chain", n(tier, 240, 2400), seed + 1000, tier, adopt=C02_ADOPT,
                  min_events={"Learned": 100})
     # heavily over-constrained ==/!= clause models with a planted solution under tiny learned-nogood
-    # limits (constant clean-up while nogoods asserting equalities are reasons) and, rarely, 100-150
+    # limits (constant clean-up while nogoods asserting equalities are reasons) and, rarely, 60-90
     # variables under default options; a panic instead of a verdict is a violation here
     planted_part(res, "planted_eq", n(tier, 200, 2000), seed + 1000, tier,
-                 adopt=dict(C02_ADOPT, **{"C10.NoPanic": "C02.NoVerdict"}), min_events={"Learned": 5000})
+                 adopt=dict(C02_ADOPT, **{"C10.NoPanic": "C02.NoVerdict"}), min_events={"Learned": 2000})
     # equality decisions in the middle of wide domains (two trail entries per decision) with conflicts
     # over predicates that one half of the decision merely implies
     tv_part(res, ["eqdecide"], n(tier, 200, 2000), seed + 1000, tier, "eqdecide", adopt=C02_ADOPT,
